@@ -110,4 +110,12 @@ FIELDS = {
 }
 
 # classes that exist only as heap shapes (no user subclassing is modelled: assumption A-EXACT)
-CLASS_NAMES = sorted(FIELDS) + ['list', 'dict', 'ParseResults', 'object']
+FIELDS['PyDBML'] = {}
+FIELDS['Path'] = {}
+FIELDS['TextIOWrapper'] = {}
+FIELDS['OtherSource'] = {}
+CLASS_NAMES = sorted(FIELDS) + ['list', 'dict', 'tuple', 'ParseResults', 'object']
+
+
+class OtherSource:
+    """stands for any object that is not a str, Path or text stream (C12: refused with TypeError)"""
